@@ -138,6 +138,18 @@ func Now() time.Time {
 	return epoch.Add(time.Duration(s.now) * ClockStep)
 }
 
+// After: how long anything takes is not controlled, so a timer is an environment event that may
+// land at any point after it was armed: a thread of its own delivers the tick (buffered, as
+// time.After does), and the scheduler decides when.
+func After(d time.Duration) *Chan[time.Time] {
+	ch := NewChan[time.Time](1)
+	if Cur == nil {
+		panic("vs.After outside a controlled execution")
+	}
+	Go(func() { ch.Send(Now()) })
+	return ch
+}
+
 // Sleep yields and advances the logical clock.
 func Sleep(d time.Duration) {
 	s := Cur
